@@ -337,7 +337,9 @@ def saved_consistency(S, b, gaps=False, max_out=16):
                         add("content/param_values/int_beyond_int16", "%s holds a value outside the 16-bit range; the file stores its low 16 bits" % nm)
                 elif got != want:
                     add("content/param_values", "%s" % nm)
-    if not gaps:
+    if not gaps and D["frame_len_words"] == 0 and len(S["frames"]) == 0:
+        pass        # no point and no channel: frames have length zero, "first = last" is the accepted encoding of "no frames"
+    elif not gaps:
         if len(D["frames"]) != len(S["frames"]):
             add("content/frame_count", "memory %d frames, file decodes %d" % (len(S["frames"]), len(D["frames"])))
         for f, (pts, an) in enumerate(D["frames"]):
